@@ -87,6 +87,17 @@ def gen_desc(rng, passive=True):
             t["rr"], t["xr"] = rng.choice([0.5, 0.25, 0.75]), rng.choice([0.5, 0.375, 1.0])
         if rng.random() < 0.02:
             t["df"] = 0.0
+        t["tap2"] = gen_tap(rng) if rng.random() < 0.25 else None      # second tap changer (tap2_* columns)
+        if t["tap2"]:
+            # create_transformer_from_parameters only adds the tap2_* columns that are not NaN and build_branch reads all of
+            # them (KeyError 'tap2_step_percent' otherwise): keep every tap2 value defined
+            for k_ in ("pct", "deg"):
+                if isnan(t["tap2"][k_]):
+                    t["tap2"][k_] = 0.0
+            if t["tap2"]["type"] is None:
+                t["tap2"]["type"] = "Ratio"
+            if t["tap2"]["side"] is None:
+                t["tap2"]["side"] = "lv"
         t2.append(t)
     d["t2"] = t2
     d["trafo_maxload_col"] = rng.random() < 0.8
@@ -120,6 +131,7 @@ def gen_desc(rng, passive=True):
         d["xward"].append({"bus": rng.randint(1, nmv), "ps": 0.5, "qs": 0.125, "pz": 0.25, "qz": 0.0625,
                            "r": rng.choice([0.0, 0.5, 2.0]), "x": rng.choice([4.0, 12.5]), "vm": rng.choice([1.0, 1.02]),
                            "in": rng.random() > 0.1})
+    d["ward"] = [{"bus": rng.randint(1, nmv), "ps": 0.25, "qs": 0.0625, "pz": 0.125, "qz": -0.25}] if rng.random() < 0.25 else []
     d["sw"] = []
     if rng.random() < 0.4:
         d["sw"].append({"bus": rng.randint(1, nmv), "z": rng.choice([0.125, 0.5, 2.0]), "p": rng.randint(2, 12) / 8})
@@ -149,6 +161,10 @@ def build(d):
         if t["rr"] is not None:
             kw["leakage_resistance_ratio_hv"] = t["rr"]
             kw["leakage_reactance_ratio_hv"] = t["xr"]
+        a2 = t.get("tap2")
+        if a2:
+            kw.update(tap2_side=a2["side"], tap2_neutral=a2["neutral"], tap2_min=-2, tap2_max=2, tap2_pos=a2["pos"],
+                      tap2_step_percent=a2["pct"], tap2_step_degree=a2["deg"], tap2_changer_type=a2["type"])
         pp.create_transformer_from_parameters(
             net, hv, mv[t["lv"]], sn_mva=t["sn"], vn_hv_kv=t["vnh"], vn_lv_kv=t["vnl"], vkr_percent=t["vkr"], vk_percent=t["vk"],
             pfe_kw=t["pfe"], i0_percent=t["i0"], shift_degree=t["shift"], tap_side=tp["side"], tap_neutral=tp["neutral"],
@@ -178,6 +194,8 @@ def build(d):
     for x in d["xward"]:
         pp.create_xward(net, mv[x["bus"]], ps_mw=x["ps"], qs_mvar=x["qs"], pz_mw=x["pz"], qz_mvar=x["qz"], r_ohm=x["r"],
                         x_ohm=x["x"], vm_pu=x["vm"], in_service=x["in"])
+    for w_ in d.get("ward", []):
+        pp.create_ward(net, mv[w_["bus"]], ps_mw=w_["ps"], qs_mvar=w_["qs"], pz_mw=w_["pz"], qz_mvar=w_["qz"])
     for s in d["sw"]:
         nb = pp.create_bus(net, 20.0)
         pp.create_load(net, nb, p_mw=s["p"], q_mvar=0.25)
@@ -425,13 +443,18 @@ def observe(net, d):
             vnh, vnl, _ = apply_tap_py(tp["side"], tp["type"], tp["pos"], tp["neutral"], tp["pct"], tp["deg"], t["vnh"], t["vnl"], shift0, to)
             baselv = float(bus[net._pd2ppc_lookups["bus"][net.trafo.lv_bus.iat[i]], BASE_KV])
             basehv = float(bus[net._pd2ppc_lookups["bus"][net.trafo.hv_bus.iat[i]], BASE_KV])
-            oo = trafo_oracle(t, vnl, baselv, sn)
             tc = tapc_term(tp["side"], tp["type"], tp["pos"], tp["neutral"], tp["pct"], tp["deg"])
             o.tterm = trafo_term(t)
             tapx = "(tap_notable %s %s %s %s %s)" % (tc, tap_orc_term(to), q(t["vnh"]), q(t["vnl"]), q(shift0))
+            a2 = t.get("tap2")
+            if a2:
+                to2 = tap_oracle(a2["side"], a2["type"], a2["pos"], a2["neutral"], a2["pct"], a2["deg"], vnh, vnl)
+                tapx = "(tap_second %s %s %s)" % (tapx, tapc_term(a2["side"], a2["type"], a2["pos"], a2["neutral"], a2["pct"], a2["deg"]), tap_orc_term(to2))
+                vnh, vnl, _ = apply_tap_py(a2["side"], a2["type"], a2["pos"], a2["neutral"], a2["pct"], a2["deg"], vnh, vnl, 0.0, to2)
+            oo = trafo_oracle(t, vnl, baselv, sn)
             o.term = "run_elem (trafo_row %s %s %s %s %s %s %s) (trafo_resids %s %s %s %s %s %s %s) %s" % (
                 q(sn), tmt, o.tterm, trafo_orc_term(oo), tapx, q(basehv), q(baselv),
-                q(sn), o.tterm, trafo_orc_term(oo), tc, tap_orc_term(to), q(shift0), q(baselv), tail(o))
+                q(sn), o.tterm, trafo_orc_term(oo), tc, tap_orc_term(to), tapx, q(baselv), tail(o))
             out.append(o)
     if "trafo3w" in lk:
         f0, f1 = lk["trafo3w"]
@@ -577,6 +600,10 @@ def ref_trafo(net, d, i):
     o = d["opt"]
     vnh, vnl, add = ref_tap(tp["side"], tp["type"], tp["pos"], tp["neutral"], tp["pct"], tp["deg"], t["vnh"], t["vnl"])
     shift = (t["shift"] if o["cva"] else 0.0) + add
+    a2 = t.get("tap2")
+    if a2:          # second tap changer: the same documented rule applied to the already adjusted rated voltages
+        vnh, vnl, add2 = ref_tap(a2["side"], a2["type"], a2["pos"], a2["neutral"], a2["pct"], a2["deg"], vnh, vnl)
+        shift += add2
     uh, ul = U(net, net.trafo.hv_bus.iat[i]), U(net, net.trafo.lv_bus.iat[i])
     sh, sl = ref_trafo_2port(o["trafo_model"], t["vk"], t["vkr"], t["sn"], t["pfe"], t["i0"], t["par"],
                              0.5 if t["rr"] is None else t["rr"], 0.5 if t["xr"] is None else t["xr"], vnh, vnl, shift, uh, ul)
@@ -649,6 +676,41 @@ def ref_impedance(net, d, i):
     ut = abs(vt) * net.bus.vn_kv.at[net.impedance.to_bus.iat[i]]
     return {"p_from_mw": sf.real, "q_from_mvar": sf.imag, "p_to_mw": st.real, "q_to_mvar": st.imag, "pl_mw": (sf + st).real,
             "ql_mvar": (sf + st).imag, "i_from_ka": abs(sf) / (SQRT3 * uf), "i_to_ka": abs(st) / (SQRT3 * ut)}
+
+
+def ref_shunt(net, d, i):
+    """documented shunt: S = (p_mw + j q_mvar) * step * (v * V_N,bus / vn_kv)^2"""
+    r = net.shunt.iloc[i]
+    v = net.res_bus.vm_pu.at[r.bus] * net.bus.vn_kv.at[r.bus] / r.vn_kv
+    return {"p_mw": r.p_mw * r.step * v ** 2, "q_mvar": r.q_mvar * r.step * v ** 2, "vm_pu": net.res_bus.vm_pu.at[r.bus]}
+
+
+def ref_ward(net, d, i):
+    r = net.ward.iloc[i]
+    v = net.res_bus.vm_pu.at[r.bus]
+    return {"p_mw": r.ps_mw + r.pz_mw * v ** 2, "q_mvar": r.qs_mvar + r.qz_mvar * v ** 2, "vm_pu": v}
+
+
+def ref_xward(net, d, i):
+    """constant power + constant impedance + voltage source vm_pu behind r_ohm + j x_ohm (PV node with p = 0)"""
+    r = net.xward.iloc[i]
+    ub = U(net, r.bus)
+    v = net.res_bus.vm_pu.at[r.bus]
+    ui = net.res_xward.vm_internal_pu.iat[i] * net.bus.vn_kv.at[r.bus] * cmath.exp(1j * math.radians(net.res_xward.va_internal_degree.iat[i]))
+    s_int = ub * ((ub - ui) / complex(r.r_ohm, r.x_ohm)).conjugate()
+    s_src = ui * ((ui - ub) / complex(r.r_ohm, r.x_ohm)).conjugate()       # power delivered by the internal source: p must be 0
+    return {"p_mw": r.ps_mw + r.pz_mw * v ** 2 + s_int.real, "q_mvar": r.qs_mvar + r.qz_mvar * v ** 2 + s_int.imag,
+            "vm_internal_pu": r.vm_pu, "vm_pu": v}, s_src.real
+
+
+def ref_switch(net, d, i, sw_index):
+    """closed bus-bus switch with z_ohm: series impedance z_ohm * (rx + j) / sqrt(1 + rx^2) between switch.bus and switch.element"""
+    rx = d["opt"]["rx"]
+    z = d["sw"][i]["z"] * complex(rx, 1) / math.sqrt(1 + rx ** 2)
+    uf, ut = U(net, net.switch.bus.at[sw_index]), U(net, net.switch.element.at[sw_index])
+    sf, st = ref_pi(z, 0, 0, uf, ut)
+    return {"p_from_mw": sf.real, "q_from_mvar": sf.imag, "p_to_mw": st.real, "q_to_mvar": st.imag,
+            "i_ka": max(abs(sf) / (SQRT3 * abs(uf)), abs(st) / (SQRT3 * abs(ut)))}
 
 
 def star_nan_defect(d):
